@@ -30,8 +30,8 @@ TRUSTED_BASE = [
 
 # per property: (random profiles with weights, enumerators)
 WORLD = {
-    'C01': dict(profiles=['match', 'general', 'seq', 'nest'], enums=['bounds_small', 'forbid_s', 'life_s', 'nested_s']),
-    'C02': dict(profiles=['match', 'seq', 'general'], enums=['seq_overlap', 'forbid_s']),
+    'C01': dict(profiles=['match', 'general', 'seq', 'nest'], enums=['bounds_small', 'forbid_s', 'life_s', 'nested_s', 'cost3']),
+    'C02': dict(profiles=['match', 'seq', 'general'], enums=['seq_overlap', 'forbid_s', 'cost3']),
     'C03': dict(profiles=['match', 'general'], enums=['bounds']),
     'C04': dict(profiles=['life', 'general', 'match'], enums=['life']),
     'C05': dict(profiles=['seq', 'watch', 'general'], enums=['seq2', 'seq2mon', 'seq3_s', 'seq_overlap']),
@@ -72,6 +72,8 @@ def enum_scripts(name, tier, rng):
         return worldgen.enum_seq(2, B5[:3], 4, with_monitor=True, sample=2000 if q else 30000, rng=rng)
     if name == 'seq3_s':
         return worldgen.enum_seq(3, B5, 4 if q else 5, sample=6000 if q else 300000, rng=rng)
+    if name == 'cost3':
+        return worldgen.enum_cost3(rng, None)
     if name == 'seq_overlap':
         return worldgen.enum_seq(3, B5[:3], 3 if q else 4, overlap=True, sample=5000 if q else 150000, rng=rng)
     if name == 'seq_overlap_s':
